@@ -241,7 +241,7 @@ def correspondence_requests(S, src, filename, tree, rng, raw_queries):
     source = S.util.Source(src, filename)
     lines = source.lines
     sc = S.scope.SourceScope(source)
-    stmts = textgen.binding_statements(tree)
+    stmts = textgen.binding_statements(tree, lines)
     q, impl, labels = [], [], []
     for kind, name, start in stmts:
         q.append([kind, cps(name), start[0], start[1], 0, True])
